@@ -153,6 +153,15 @@ func (mediaType *MediaType) Validate(ctx context.Context, opts ...ValidationOpti
 					}
 				}
 			}
+		} else {
+			// only the comparison of examples with the schema is switched off
+			for _, k := range componentNames(mediaType.Examples) {
+				if v := mediaType.Examples[k]; v != nil {
+					if err := v.Validate(ctx); err != nil {
+						return fmt.Errorf("example %s: %w", k, err)
+					}
+				}
+			}
 		}
 	}
 
